@@ -1,7 +1,7 @@
 """C07 — Malformed expressions are reported as errors, never evaluated (structural clauses)."""
 import re
 
-from analysis import mir, dom, order
+from analysis import mir, dom, order, rel, loops
 from analysis.callgraph import CallGraph
 from analysis.facts import loc
 from analysis.interp import Interp, Policy, Sym, Variant, Closure, Tup, Const, App, show
@@ -75,6 +75,107 @@ def count_guard_ok(body, okb, org):
     return False, None, None
 
 
+class paren_loop:
+    """Loop form of the parenthesis scan (`for tok in tokens { if let Paren(p) = tok { n += +-1; if n < 0 { return Err } } }`),
+    decided from the loop's general trip (analysis/loops.py): the counter starts at 0, every token is visited in order,
+    '(' adds 1, ')' subtracts 1 and the trip only completes when the new count is not negative, other tokens leave it alone;
+    an Ok return needs the count to be 0 when the loop has been left through its exhausted iterator."""
+
+    def __new__(cls, fb, tc, allp):
+        self = object.__new__(cls)
+        self.problems = []
+        self.tc = tc
+        gen = []
+        for p in allp:
+            for t in loops.trips(p, tc["path"], 0):
+                if t.general and t.post is not None:
+                    gen.append(t)
+        # the counter: a loop-carried local that some general trip changes by a constant
+        cand = {}
+        for t in gen:
+            for L, v in t.post.items():
+                pre = t.pre.get(L)
+                if pre is not None and isinstance(v, App) and v.fn == "binop:Add" and len(v.args) == 2 and v.args[0].key() == pre.key() and rel.const_int(v.args[1]) is not None:
+                    cand.setdefault((t.header, L), set()).add(rel.const_int(v.args[1]))
+        cand = {k: v for k, v in cand.items() if v == {1, -1} or v == {1} or v == {-1}}
+        if len(cand) != 1:
+            return None
+        (self.H, self.C), _ = next(iter(cand.items()))
+        seen = {"Open": 0, "Close": 0, "other": 0}
+        for t in gen:
+            if t.header != self.H:
+                continue
+            pre, post = t.pre[self.C], t.post.get(self.C)
+            tags = [(rel.cstr(d[1].args[0]), d[2]) for d in t.decisions if isinstance(d[1], App) and d[1].fn == "discr"]
+            kind = None
+            for s, l in tags:
+                if l in ("Open", "Close") and "as:Paren(" in s:
+                    kind = l
+            is_paren = any(l == "Paren" for s, l in tags)
+            delta = None
+            if post is not None and post.key() == pre.key():
+                delta = 0
+            elif isinstance(post, App) and post.fn == "binop:Add" and post.args[0].key() == pre.key():
+                delta = rel.const_int(post.args[1])
+            if delta is None:
+                self.problems.append("the counter is updated to %s" % show(post)[:80])
+                continue
+            if kind is None and not is_paren:
+                seen["other"] += 1
+                if delta != 0:
+                    self.problems.append("a token that is not a parenthesis changes the counter by %+d" % delta)
+                continue
+            if kind is None:
+                self.problems.append("parenthesis kind not decided on a trip that changes the counter by %+d" % delta)
+                continue
+            seen[kind] += 1
+            want = 1 if kind == "Open" else -1
+            if delta != want:
+                self.problems.append("counter update for %s is %+d, expected %+d" % (kind, delta, want))
+                continue
+            if kind == "Close":
+                F = rel.Facts(type("P", (), {"decisions": t.decisions})())
+                nonneg = any((op == "<=" and rel.const_int(a) == 0 and b.key() == rel.canon(post).key()) or
+                             (op == "<" and rel.const_int(a) == -1 and b.key() == rel.canon(post).key()) for a, op, b in F.rel)
+                if not nonneg:
+                    self.problems.append("a closing parenthesis is accepted without testing that the running count stays >= 0")
+        if not (seen["Open"] and seen["Close"] and seen["other"]):
+            self.problems.append("trips seen: %s" % seen)
+        # start value and source
+        self.start_ok = True
+        for p in allp:
+            ts = [t for t in loops.trips(p, tc["path"], 0) if t.header == self.H]
+            if not ts:
+                continue
+            first = ts[0]
+            if rel.const_int(first.pre.get(self.C)) != 0:
+                self.problems.append("the counter does not start at 0: %s" % show(first.pre.get(self.C)))
+                break
+        return self
+
+    def verdict(self, p):
+        """(scan ok, final ok) for one Ok path"""
+        scan = not self.problems
+        st = loops.exit_state(p, self.tc["path"], self.H, 0)
+        if st is None:
+            return False, False     # Ok without ever reaching the scan
+        c = st.get(self.C)
+        # the loop is left through its own exit condition (iterator exhausted), not from inside a trip
+        idx = [i for i, (k, x) in enumerate(p.trace) if k == "e" and x[0] == "loophead" and x[1] == self.H and x[2] == self.tc["path"] and x[3] == 0]
+        after = [x for k, x in p.trace[idx[-1] + 1:] if k == "d"]
+        exhausted = bool(after) and isinstance(after[0][1], App) and after[0][1].fn == "discr" and "Iterator::next(" in show(after[0][1]) and after[0][2] == "None"
+        # every token is visited in order
+        ts = [t for t in loops.trips(p, self.tc["path"], 0) if t.header == self.H]
+        itl = [L for L, v in ts[0].pre.items() if "Iterator::enumerate(" in show(v) or "<impl [T]>::iter(toks)" in show(v)]
+        src_ok = any(loops.seq_parts(ts[0].pre[L], p) == [("src", "toks", "fwd")] for L in itl)
+        if rel.const_int(c) is not None:
+            final = rel.const_int(c) == 0
+        else:
+            F = rel.Facts(type("P", (), {"decisions": after})())
+            final = any(op == "==" and {rel.const_int(a), rel.const_int(b)} & {0} and (a.key() == rel.canon(c).key() or b.key() == rel.canon(c).key()) for a, op, b in F.rel)
+        return (scan and exhausted and src_ok), final
+
+
 def run(ctx):
     chk, fb = ctx.check, ctx.fb
     chk.rule("R07.1", "token check: Ok only if non-empty AND paren scan ok AND final count == 0 AND last token not an operator; scan: +1 '(' / -1 ')' and Err when the running count < 0")
@@ -89,7 +190,12 @@ def run(ctx):
         chk.violation("R07.1", "anchor", "token precondition check not found by role (fn(&[ParsedToken]) -> ExResult<()>): %s" % [c["path"] for c in cands])
         return
     tc = cands[0]
-    ps = Interp(fb, _NoInline()).run(tc, [Sym("toks")])
+
+    class _Widen(_NoInline):
+        loop_mode = "widen"
+    allp = Interp(fb, _Widen()).run(tc, [Sym("toks")])
+    ps = [p for p in allp if p.status != "loop-pruned"]
+    loop_form = paren_loop(fb, tc, allp)
     bad = [p for p in ps if p.status not in ("return", "unreachable")]
     if bad:
         chk.unrecognised("R07.1", "shape", "token check has a shape outside the accepted idioms: %s" % [(p.status, p.note) for p in bad][:2], loc(tc["span"]))
@@ -100,8 +206,12 @@ def run(ctx):
     scan_closure = None
     for p in okp:
         dec = [(show(d[1]), d[2], d[0]) for d in p.decisions]
+        F = rel.Facts(p)
+        LEN = "core::slice::<impl [T]>::len(toks)"
         g_empty = any(re.match(r"^core::slice::<impl \[T\]>::is_empty\(toks\)$", s) and l is False for s, l, _ in dec) or \
-            any(re.match(r"^binop:(Eq)\(core::slice::<impl \[T\]>::len\(toks\), 0_usize\)$", s) and l is False for s, l, _ in dec)
+            any(rel.cstr(x) in ("core::slice::<impl [T]>::last(toks)", "core::slice::<impl [T]>::first(toks)", "core::slice::<impl [T]>::split_last(toks)") and l == "Some" for x, l in F.tags) or \
+            any((op == "!=" and {rel.cstr(a), rel.cstr(b)} == {LEN, "0_usize"}) or (op == "<" and rel.cstr(a) == "0_usize" and rel.cstr(b) == LEN) or
+                (op == "<=" and rel.cstr(a) == "1_usize" and rel.cstr(b) == LEN) for a, op, b in F.rel)
         # the counter: a value mutated by an iterator adaptor that received a closure capturing it mutably
         g_final = None
         for s, l, _ in dec:
@@ -121,10 +231,14 @@ def run(ctx):
                             isinstance(v, Const) and v.ty == "i32" for v in c.caps.values()):
                         g_scan = True
                         scan_closure = c
-        g_last = any(re.match(r"^discr\(index\(toks, binop:Sub\(core::slice::<impl \[T\]>::len\(toks\), 1_usize\)\)\)$", s) and l not in ("Op",) for s, l, _ in dec) and \
-            not any(re.match(r"^discr\(index\(toks, binop:Sub\(core::slice::<impl \[T\]>::len\(toks\), 1_usize\)\)\)$", s) and l == "Op" for s, l, _ in dec)
+        LAST = ("index(toks, binop:Sub(core::slice::<impl [T]>::len(toks), 1_usize))", ".0(as:Some(core::slice::<impl [T]>::last(toks)))")
+        last_tags = [l for x, l in F.tags if rel.cstr(x) in LAST]
+        g_last = bool(last_tags) and "Op" not in last_tags
+        if loop_form is not None:
+            g_scan, g_final = loop_form.verdict(p)
         for name, g, what in (("non-empty", g_empty, "Ok is returned without testing that the token sequence is non-empty"),
-                              ("paren-scan", g_scan, "Ok is returned without a successful parenthesis scan (negative running count not rejected)"),
+                              ("paren-scan", g_scan, "Ok is returned without a successful parenthesis scan (negative running count not rejected)%s" % (
+                                  (": " + "; ".join(loop_form.problems[:3])) if loop_form is not None and loop_form.problems else "")),
                               ("final-count", g_final, "Ok is returned without the parenthesis counter being zero at the end (unclosed parenthesis accepted)"),
                               ("last-not-op", g_last, "Ok is returned although the last token may be an operator")):
             if g:
